@@ -253,7 +253,6 @@ func startWatchdog(d time.Duration, out string) {
 	}()
 }
 
-
 // startParkedYield arms, in mode "yield", the scheduling points of the
 // instrumented copy of the client for an engine whose goroutines run one at a
 // time under the seeded scheduler. It returns the function that disarms them
